@@ -188,6 +188,9 @@ pub fn def() -> CheckDef {
                exact-out without limit fills completely.  Non-trivial = successful neutral run that crossed an initialized tick or stopped at the limit; \
                two-hop bounds are checked in the `two_hop` sub-check.",
         assumptions: vec!["nsvm runtime as in DESIGN.md §5"],
-        subs: vec![sub("single", 6000, 200_000, case_strategy, |c: &BoundsCase, l: &mut Local| check_case(c, l))],
+        subs: vec![
+            sub("single", 12000, 300_000, case_strategy, |c: &BoundsCase, l: &mut Local| check_case(c, l)),
+            sub("two_hop", 8000, 150_000, super::c17::case_strategy, |c: &super::c17::TwoHopCase, l: &mut Local| super::c17::check_case(c, l, true)),
+        ],
     }
 }
